@@ -19,6 +19,7 @@ import random as py_random
 import subprocess
 import sys
 
+import copy
 import numpy
 import pandas
 from hypothesis import strategies as st
@@ -253,9 +254,17 @@ def run_call(w, call):
         out = prot.mate(pg, xconfig, int(nmating), int(nprogeny), nself=int(nself))
         return canon(out)
     if op == "pheno":
-        _, spec, nenv, nrep, ntrait, verr = call
+        _, spec, nenv, nrep, ntrait, verr = call[:6]
+        how = call[6] if len(call) > 6 else "direct"
         pt = G_E_Phenotyping(w["gm"][ntrait], nenv=int(nenv), nrep=int(nrep), var_env=0.5, var_rep=0.25,
                              var_err=float(verr), rng=make_rng(spec))
+        # the protocol documents copy()/deepcopy(): a copy is the same stochastic component (same stream)
+        if how == "copy":
+            pt = copy.copy(pt)
+        elif how == "deepcopy":
+            pt = copy.deepcopy(pt)
+        elif how == "deepcopy_method":
+            pt = pt.deepcopy()
         return canon(pt.phenotype(pg))
     if op == "sus":
         _, spec, k, wts = call
@@ -447,6 +456,70 @@ def check_reseed(case, ctx):
 
 
 # ------------------------------------------------------------------------------------------------------
+# sub-check: persistent components (clause A for objects that outlive the re-seeding)
+# ------------------------------------------------------------------------------------------------------
+PERSIST_KINDS = [m[0] for m in MATE] + ["pheno", "pheno_copy", "pheno_deepcopy", "pheno_deepcopy_method", "hillclimber", "select_sorting"]
+
+
+def build_persistent(w):
+    """long-lived stochastic components created with rng=None BEFORE prng.seed() is called; name -> callable(args) -> output"""
+    pg = w["pg"]
+    comp = {}
+    for name, cls, npar in MATE:
+        prot = cls()
+
+        def use(args, prot=prot, npar=npar):
+            xc = numpy.array([[(args[0] + q * (1 + args[1])) % NTAXA for q in range(npar)] for _ in range(2)], dtype="int64")
+            return canon(prot.mate(pg, xc, 1, 1 + args[2] % 2, nself=args[3] % 2))
+        comp[name] = use
+    pt = G_E_Phenotyping(w["gm"][2], nenv=2, nrep=1, var_env=0.5, var_rep=0.25, var_err=1.0)
+    for key, obj in (("pheno", pt), ("pheno_copy", copy.copy(pt)), ("pheno_deepcopy", copy.deepcopy(pt)),
+                     ("pheno_deepcopy_method", pt.deepcopy())):
+        comp[key] = (lambda args, obj=obj: canon(obj.phenotype(pg)))
+    hc = SteepestDescentSubsetHillClimber()
+    comp["hillclimber"] = (lambda args: canon(hc.minimize(opt_problem(w, "subset", 1)).soln_decn))
+    sel = GEBV_SEL["subset"](ntrait=1, unscale=True, ncross=2, nparent=2, nmating=1, nprogeny=2, nobj=1,
+                             soalgo=SortingSubsetOptimizationAlgorithm())
+    comp["select_sorting"] = (lambda args: canon(sel.select(pg, pg, None, None, w["gm"][1], 0, 3).xconfig))
+    return comp
+
+
+@st.composite
+def persistent_case(draw):
+    n = draw(st.integers(1, 6))
+    uses = [[draw(st.sampled_from(PERSIST_KINDS)), [draw(st.integers(0, 50)) for _ in range(4)]] for _ in range(n)]
+    return {"uses": uses, "seed": draw(st.sampled_from([0, 1, 2**32 - 1]) | st.integers(0, 2**32 - 1)),
+            "hist": draw(st.integers(0, 1000)), "ndraw1": draw(st.integers(0, 5)), "ndraw2": draw(st.integers(0, 5))}
+
+
+def persistent_cases(tier):
+    return [{"uses": [[k, [1, 2, 3, 4]], [k, [5, 1, 0, 1]]], "seed": s, "hist": 3, "ndraw1": 0, "ndraw2": 3}
+            for k in PERSIST_KINDS for s in (0, 12345)]
+
+
+def check_persistent(case, ctx):
+    s = case["seed"]
+    outs = []
+    for hist_seed, ndraw in ((11, case["ndraw1"]), (22, case["ndraw2"])):
+        py_random.seed(hist_seed + case["hist"])
+        numpy.random.seed((hist_seed * 977 + case["hist"]) % 2**32)
+        w = build_world()
+        comp = build_persistent(w)                 # components exist before the re-seeding ...
+        for _ in range(ndraw):                     # ... and the interpreter has some more history
+            numpy.random.random()
+            py_random.random()
+        prng.seed(s)
+        outs.append([comp[k](a) for k, a in case["uses"]])
+    for k, _ in case["uses"]:
+        ctx.label("uses:" + k)
+    ctx.nontrivial(case["ndraw1"] != case["ndraw2"] or True)
+    for i, (k, a) in enumerate(case["uses"]):
+        ctx.check(outs[0][i] == outs[1][i], "reseed.persistent_component_output_differs:%s" % k,
+                  lambda: "use #%d of the long-lived %s (created before prng.seed(%d)) gave different outputs:\n %s\n %s"
+                          % (i, k, s, json.dumps(outs[0][i])[:300], json.dumps(outs[1][i])[:300]))
+
+
+# ------------------------------------------------------------------------------------------------------
 # sub-check: isolation (clause B)
 # ------------------------------------------------------------------------------------------------------
 def check_isolation(case, ctx):
@@ -572,7 +645,7 @@ def call_strategy(explicit, with_pymoo=True, only_rng_components=False):
         st.tuples(st.just("mate"), st.sampled_from([m[0] for m in MATE]), spec, st.lists(ints, min_size=1, max_size=8),
                   st.integers(1, 2), st.integers(1, 3), st.integers(0, 1)),
         st.tuples(st.just("pheno"), spec, st.integers(1, 2), st.integers(1, 2), st.sampled_from([1, 2]),
-                  st.sampled_from([1.0, 0.25, 4.0])),
+                  st.sampled_from([1.0, 0.25, 4.0]), st.sampled_from(["direct", "direct", "copy", "deepcopy", "deepcopy_method"])),
         st.tuples(st.just("sus"), spec, st.integers(1, 6), st.lists(ints, min_size=2, max_size=6)),
         st.tuples(st.just("tiled_choice"), spec, st.integers(2, 5), st.integers(1, 9), st.booleans()),
         st.tuples(st.just("axis_shuffle"), spec, st.integers(0, 1)),
@@ -647,7 +720,8 @@ def subprocess_case(draw):
 def _every_call(spec):
     """one representative call per component class (finite enumeration: guarantees every class is exercised)"""
     out = [["mate", m[0], spec, [1, 2, 3, 4, 5, 6, 7, 0], 1, 2, 1] for m in MATE]
-    out += [["pheno", spec, 2, 2, 2, 1.0], ["pheno", spec, 1, 1, 1, 0.25], ["sus", spec, 4, [1, 2, 3, 4]],
+    out += [["pheno", spec, 2, 2, 2, 1.0], ["pheno", spec, 1, 1, 1, 0.25], ["pheno", spec, 2, 1, 1, 1.0, "copy"],
+            ["pheno", spec, 2, 1, 1, 1.0, "deepcopy"], ["pheno", spec, 1, 2, 2, 1.0, "deepcopy_method"], ["sus", spec, 4, [1, 2, 3, 4]],
             ["tiled_choice", spec, 3, 7, False], ["tiled_choice", spec, 3, 7, True], ["axis_shuffle", spec, 0],
             ["axis_shuffle", spec, 1], ["outcross_shuffle", spec, [1, 1, 2, 2, 3, 3], 2]]
     out += [["xconfig", k, spec, 3, 2, 2] for k in sorted(CFG)]
@@ -702,6 +776,12 @@ SUBCHECKS = [
                   "states compared byte-for-byte around every call; non-trivial = the two global seeds differ",
              required_labels=("has:mate", "has:pheno", "has:xconfig", "has:opt", "has:select", "rng_generator",
                               "rng_randomstate")),
+    SubCheck("each_persistent", check_persistent, cases=persistent_cases, shards_quick=2, shards_thorough=4,
+             rule="finite enumeration: every long-lived component kind (7 mating protocols, G_E_Phenotyping and its copy()/deepcopy() "
+                  "forms, hill-climber, selection protocol), created with rng=None before prng.seed(s), used twice after it, behind two histories"),
+    SubCheck("persistent", check_persistent, persistent_case(), quick=100, thorough=400, shards_quick=4, shards_thorough=16,
+             rule="generated sequences of 1-6 uses of long-lived components created before the re-seeding (as a user script does: build "
+                  "protocols once, seed, run); outputs after prng.seed(s) must not depend on the history before it"),
     SubCheck("subprocess", check_subprocess, subprocess_case(), quick=3, thorough=12, shards_quick=2, shards_thorough=16,
              rule="the same program executed in two fresh interpreters (different prior histories) and in process after "
                   "prng.seed(s); non-trivial = >= 2 component kinds"),
